@@ -363,7 +363,7 @@ func writeEvidence(p *Property, opts *Options, specs []*HarnessSpec, results []*
 		harn = append(harn, map[string]interface{}{
 			"name": R.Spec.Name, "package": R.Spec.Pkg, "description": R.Spec.Desc, "paths": R.Paths, "fork_decisions": R.Decisions,
 			"outcomes": R.Outcomes, "assertions": al, "params": R.Spec.Params, "unwind": R.Spec.Unwind, "ssa_steps": R.Steps,
-			"wall_s": R.Wall.Seconds(), "feasibility_unknown_branches_kept": R.FeasUnknown,
+			"wall_s": R.Wall.Seconds(), "feasibility_unknown_branches_kept": R.FeasUnknown, "decided_by_fallback_cvc5_bv_as_int": R.Fallbacks, "primary_solver": firstNonEmpty(R.Spec.Solver, opts.Solver),
 		})
 	}
 	if len(samples) == 0 {
@@ -418,4 +418,11 @@ func writeEvidence(p *Property, opts *Options, specs []*HarnessSpec, results []*
 	os.MkdirAll(filepath.Join(verifDir, "evidence"), 0755)
 	bs, _ := json.MarshalIndent(ev, "", " ")
 	os.WriteFile(filepath.Join(verifDir, "evidence", p.ID+".json"), bs, 0644)
+}
+
+func firstNonEmpty(a, b string) string {
+	if a != "" {
+		return a
+	}
+	return b
 }
